@@ -369,6 +369,8 @@ def main(argv):
     c.cov["violation_classes"] = reported
     c.cov["rule"] = ("per ordinary collection (0..12 objects, fields of the five scalar types + id, 0-60% nulls, value pools with ties): "
                      "(1) the full paging grid skip x limit (99 points) for `true` in default order and for a null test under a sort; "
+                     "(1a) the skip/limit pairs at the numeric extremes of int64 (skip+limit at and beyond MaxInt64 with a finite limit, "
+                     "skips near MaxInt64 / 2^62 / MinInt64) in default order and under a one-key sort; "
                      "(2) every atom kind x operator x column once unpaged and once with a random sort and page "
                      "(= != < <= > >= null-tests contains/icontains in between bool-symbol, negated forms); "
                      "(3) random and/or/not combinations (depth <= 3) x random 0..5-key sorts x random grid points; "
